@@ -350,6 +350,20 @@ def apply_plant(root, entries):
             if os.path.lexists(p):
                 os.unlink(p)
             os.symlink(e["target"], p)
+        elif k == "copy_of_target":
+            # the link is replaced by a REAL directory: a copy of what it pointed to (same names, sizes, times at the top level),
+            # curated by hand somewhere below
+            if os.path.islink(p) and os.path.isdir(p):
+                tgt = os.path.realpath(p)
+                os.unlink(p)
+                shutil.copytree(tgt, p, symlinks=True)
+                for dp, dn, fn in os.walk(p):
+                    for f_ in fn:
+                        if dp != p:
+                            with open(os.path.join(dp, f_), "a") as fh:
+                                fh.write("edited by hand\n")
+                with open(os.path.join(p, "sub", "NOTES.txt") if os.path.isdir(os.path.join(p, "sub")) else os.path.join(p, ".notes"), "w") as fh:
+                    fh.write("mine\n")
         elif k == "remove":
             if os.path.isdir(p) and not os.path.islink(p):
                 shutil.rmtree(p)
